@@ -25,12 +25,54 @@ RUNNER = os.path.join(common.VERIF, 'harness', 'corrupt_runner.py')
 MEM = 3 * 1024 ** 3
 
 
-def corrupt(rng, data, kind=None):
-    kind = kind or rng.choice(['flip', 'flip', 'truncate', 'delete', 'insert', 'length', 'zero'])
+def packet_offsets(data):
+    """offsets of the 12-byte packet headers of a decoded stream (as far as the sizes chain up)"""
+    offs, o = [], 0
+    while o + 12 <= len(data):
+        size = struct.unpack_from('<I', data, o)[0]
+        offs.append((o, size))
+        o += 12 + size
+    return offs
+
+
+def directed_field_values(rng, offs, k, rem):
+    """values for a tampered 32-bit length / count field of packet k: boundaries of every integer interpretation (unsigned, signed,
+    relative to what is left, pointing back to an earlier packet boundary or to the field itself)"""
+    o, size = offs[k]
+    back = [-(12 + offs[k - 1][1])] if k else []
+    if k:
+        j = rng.randrange(k)
+        back.append(offs[j][0] - o - 12)                      # next header = header of an earlier packet j
+    vals = [0, 1, size - 1, size + 1, size + 12, rem, rem + 1, max(rem - 1, 0), 0x7fffffff, 0x80000000, 0xffffffff,
+            -1, -4, -11, -12, -13, -(o + 12), -(o + 13)] + back
+    return [v & 0xffffffff for v in vals]
+
+
+def corrupt(rng, data, kind=None, packets=False):
+    """`packets`: the data is a decoded packet stream, so structure-aware tampering applies: the size field of a packet header
+    ('psize') or a 32-bit field near the start of a payload ('pfield': ids, indices, inner lengths and counts)"""
+    kinds = ['flip', 'flip', 'truncate', 'delete', 'insert', 'length', 'zero'] + (['psize', 'psize', 'pfield'] if packets else [])
+    kind = kind or rng.choice(kinds)
     b = bytearray(data)
     if not b:
         return bytes(b), kind, 0
     pos = rng.randrange(len(b))
+    if kind in ('psize', 'pfield'):
+        offs = packet_offsets(data)
+        if len(offs) < 2:
+            kind = 'length'
+        else:
+            k = rng.randrange(len(offs))
+            o, size = offs[k]
+            rem = len(b) - o - 12
+            if kind == 'psize':
+                pos = o
+            else:
+                pos = o + 12 + rng.choice([0, 4, 5, 8, 12, 16])
+                rem = max(o + 12 + size - pos - 4, 0)
+            if pos + 4 <= len(b):
+                b[pos:pos + 4] = struct.pack('<I', rng.choice(directed_field_values(rng, offs, k, rem)))
+            return bytes(b), kind, pos
     if kind == 'flip':
         for _ in range(rng.choice([1, 1, 3, 16])):
             p = rng.randrange(len(b))
@@ -70,7 +112,7 @@ def make_cases(rng, src_path, n, outdir, tag):
             data = raw[:off] + tail
             intact = False
         else:
-            stream, kind, pos = corrupt(rng, info.decrypted_data)
+            stream, kind, pos = corrupt(rng, info.decrypted_data, packets=True)
             data = container.write_container(ext, raw[12:12 + struct.unpack('<i', raw[8:12])[0]], [], stream, level=1)
             intact = True
         p = os.path.join(outdir, '%s-%d.%s' % (tag, i, ext))
@@ -377,10 +419,15 @@ def part_zero_width(chk):
             chk.broken.append('NoZeroWidth fails on %s: %s (a nested slice update on such a list would never terminate)' % (rel, m['zeroWidth'][:5]))
 
 
+class _Hang(BaseException):
+    pass
+
+
 def _stream_worker(cfg):
+    import signal
     drv = common.Driver()
     st = histcheck.Setup(cfg['seed_key'])
-    out = {'cases': 0, 'problems': []}
+    out = {'cases': 0, 'problems': [], 'hangs': []}
     try:
         for hi in range(cfg['n_hist']):
             dialect = cfg['dialects'][hi % len(cfg['dialects'])]
@@ -388,8 +435,21 @@ def _stream_worker(cfg):
             h = history.generate(rng, st.views, dialect, 40)
             stream = history.stream_of(h.packets)
             for k in range(cfg['variants']):
-                bad, kind, pos = corrupt(rng, stream)
-                model, impl, _ = histcheck.run_history(drv, st, dialect, None, strict=False, stream=bad)
+                bad, kind, pos = corrupt(rng, stream, packets=True)
+                # CPU-time limit around the in-process run: a stream of a few KB that keeps the player busy for 20 s is a hang
+                def on_prof(signum, frame):
+                    raise _Hang()
+                signal.signal(signal.SIGPROF, on_prof)
+                signal.setitimer(signal.ITIMER_PROF, 20)
+                try:
+                    model, impl, _ = histcheck.run_history(drv, st, dialect, None, strict=False, stream=bad)
+                except _Hang:
+                    out['hangs'].append({'dialect': dialect, 'kind': kind, 'pos': pos, 'stream': bad.hex()[:20000], 'defset': st.ds,
+                                         'bytes': len(bad)})
+                    drv = common.Driver()
+                    continue
+                finally:
+                    signal.setitimer(signal.ITIMER_PROF, 0)
                 out['cases'] += 1
                 d = histcheck.compare_worlds(model['world'], impl['world'])
                 if d is None and histcheck.norm_end(model) != histcheck.norm_end(impl):
@@ -409,6 +469,9 @@ def part_streams(chk, drv, n_sets):
         chk.cov['evaluations'] += r['cases']
         chk.dist('corrupted_streams', r['cases'])
         chk.cov['traces_validated_against_impl'] += r['cases'] - len(r['problems'])
+        for hg in r['hangs']:
+            chk.report('playing a corrupted stream of %d bytes (%s, %s at offset %d) does not terminate within 20 s of CPU time' % (hg['bytes'], hg['dialect'], hg['kind'], hg['pos']),
+                       {'kind': 'hang-in-process', **hg})
         for p in r['problems']:
             chk.broken.append('correspondence on a corrupted stream (%s, %s at %d): %s' % (p['dialect'], p['kind'], p['pos'], p['diff']))
             histcheck.save_corpus_candidate(chk, {'kind': 'corrupted-stream', **p})
